@@ -1028,16 +1028,13 @@ func isDataAttribute(val string) bool {
 	if !dataAttribute.MatchString(val) {
 		return false
 	}
-	rest := strings.Split(val, "data-")
-	if len(rest) == 1 {
-		return false
-	}
+	rest := strings.TrimPrefix(val, "data-")
 	// data-xml* is invalid.
-	if dataAttributeXMLPrefix.MatchString(rest[1]) {
+	if dataAttributeXMLPrefix.MatchString(rest) {
 		return false
 	}
 	// no uppercase or semi-colons allowed.
-	if dataAttributeInvalidChars.MatchString(rest[1]) {
+	if dataAttributeInvalidChars.MatchString(rest) {
 		return false
 	}
 	return true
